@@ -41,3 +41,22 @@ func H_C16_dateLongYear(p int, spare int) {
 	vAssert("caller-bytes-untouched", string(buf[:p]) == snap)
 	vReach("extended", f == 0)
 }
+
+// the caller's buffer is the result of an earlier call (the usual way texts are chained): the earlier bytes stay
+// what they were and the new text follows them
+//
+//verif:harness C16 quick
+func H_C16_dateChain() {
+	d1, _, _, _ := symDate("d1", 0, 9999)
+	d2, _, _, _ := symDate("d2", 0, 9999)
+	f1, f2 := Format(vU8("f1")&1), Format(vU8("f2")&1)
+	a, _ := DefaultFormatter(nil, d2, f2)
+	alone := string(a)
+	first, err1 := DefaultFormatter(nil, d1, f1)
+	snap := string(first)
+	second, err2 := DefaultFormatter(first, d2, f2)
+	vAssert("no-error", err1 == nil && err2 == nil)
+	vAssert("earlier-text-kept-and-new-text-appended", string(second) == snap+alone)
+	vAssert("earlier-result-untouched", string(first) == snap)
+	vReach("mixed-formats", f1 != f2)
+}
